@@ -1,11 +1,14 @@
 import ElkVerif.Model.Mini.Eval
 import ElkVerif.Model.Mini.Types
+import ElkVerif.Model.Mini.TypesB
 import Driver.Util
 import Driver.Sexp
 /-!
 domain `mini`:
   `mini<TAB>src<TAB>PROG`          → `ok <Elk source, \n and \\ escaped>`
   `mini<TAB>run<TAB>FUEL<TAB>PROG` → `ok <outcome> | <printed lines joined by \n (escaped)>`
+  `mini<TAB>tcb<TAB>PROG`          → `ok` if the model's program checker (`checkProg`, statements, methods,
+                                     closures; Model/Mini/TypesB.lean) accepts PROG, else `reject`
 PROG is an s-expression (grammar: see `decode*` below; generator: checks/mini_gen.py).
 The decoder and the pretty-printer are harness code (unverified); the evaluator is the model.
 -/
@@ -241,6 +244,11 @@ def handle : List String → String
       | some t => "ok " ++ showSTy t
       | none => "ok none"
     | _, _ => "bad-op"
+  | ["tcb", prog] =>
+    -- `mini<TAB>tcb<TAB>PROG` → the model's whole-program checker (stages B–D): `ok` / `reject`
+    match (Sexp.parse prog).bind decProg with
+    | some p => if checkProg 256 p then "ok" else "reject"
+    | none => "bad-op"
   | ["src", prog] =>
     match (Sexp.parse prog).bind decProg with
     | some p => "ok " ++ esc (ppProg p)
